@@ -222,6 +222,20 @@ package encode
 //@   property C15
 //@   ensures result == 0
 
+// Interface-level contracts, used at dynamic call sites (st.encoder.Decode(...)).
+
+//@ func Encoder.Decode
+//@   property DEPA
+//@   assume-dep interface contract: the implementations in package encode are verified against their own stronger contracts (C15); a user-supplied encoder is trusted to be total on the encodings it produced and read-only
+
+//@ func Encoder.GetEncodedSize
+//@   property DEPA
+//@   assume-dep interface contract (see Encoder.Decode)
+
+//@ func Encoder.Encode
+//@   property DEPA
+//@   assume-dep interface contract (see Encoder.Decode)
+
 // ---------------------------------------------------------------------------
 // Ghost code: round-trip lemmas of property C15. Each function composes the
 // real methods; slimvc checks it against the callees' CONTRACTS only, so the
